@@ -218,6 +218,11 @@ def graph_spec(tier: str, light: bool = False) -> Dict[str, Any]:
             s2 = frontend_graphs(2)
             lists["D(S1,3)"] = deviation_closure(s1, 2 if light else 3)
             lists["D(S2,1)"] = deviation_closure(s2, 0 if light else 1)
+            if s3 and not light:
+                # one goto away from structured programs with three compound statements (graphs up to 14 blocks)
+                base = s3[::16]
+                bs = set(base)
+                lists["D(S3/16,1)"] = [g for g in deviation_closure(base, 1) if g not in bs]
         if not light:
             lists.update(bytecode_graphs(tier))
     except ImportError:
